@@ -1,10 +1,11 @@
 import PwVerif.Lemmas.LoopRemote
 import PwVerif.Props.C05Generated
+import PwVerif.Lemmas.EarlyRemote5
 /-!
-(written by `tools/gen_loopk.py` from one template; part 1 of 12 of the landing points before the loop)
+(written by `tools/gen_loopk.py` from one template; part 11 of 12 of the landing points before the loop)
 
 The whole regenerated `premoteRun` program on `n` items and the release marker with one asynchronous event after `K` line
-events, `K` smaller than the number `premoteP` of line events before the loop and `K % 12 = 1`: one symbolic evaluation
+events, `K` smaller than the number `premoteP` of line events before the loop and `K % 12 = 11`: one symbolic evaluation
 of the program per landing point. A request that nobody can deliver yet is lost, and the run is the undisturbed one
 (loop summarised by `C05.premote_loop`).
 -/
@@ -13,8 +14,8 @@ open PwVerif.Py PwVerif.Gen
 
 set_option maxRecDepth 8000 in
 set_option maxHeartbeats 4000000 in
-theorem premote_early_1 (env : Env) (he : Returns env) (hc : C05.Returns env) (a : Async) (ha : premoteCov a) (n : Nat) :
-    ∀ K, K < premoteP → K % 12 = 1 →
+theorem premote_early_11 (env : Env) (he : Returns env) (hc : C05.Returns env) (a : Async) (ha : premoteCov a) (n : Nat) :
+    ∀ K, K < premoteP → K % 12 = 11 →
       ∃ F, StreamShape n (execBlock env F { inputs := List.replicate n .item ++ [.release], left := some K, async := a } premoteRun) := by
   obtain ⟨F, hF⟩ := C05.premote_loop env hc n
   have hW : C05.premoteW = .whileS _ _ _ := rfl
